@@ -123,6 +123,38 @@ fn tiny_kernels() -> Vec<KCase> {
     v
 }
 
+/// More than 16 records within one ulp of each other: the corner in which the kd-tree build of the
+/// `kdtree` crate does not terminate (cases 0-3), and its terminating neighbours (cases 4-5).
+fn near_duplicate_clusters() -> Vec<KCase> {
+    let ulp64 = 1.4901161193847656e-08; // spacing of f64 at 1e8
+    let ulp32 = 0.000244140625; // spacing of f32 at 2048
+    let mk = |rows: Vec<Vec<f64>>, offset: Vec<f64>, single: bool, method: KM| KCase {
+        class: DataClass::Duplicates,
+        x: rows,
+        method,
+        k: 20000,
+        rhs_cols: 2,
+        rhs_seed: 11,
+        path: 0,
+        offset,
+        scale: 1.0,
+        single,
+    };
+    let cluster = |n: usize, p: usize, odd: Vec<f64>, pos: usize| -> Vec<Vec<f64>> {
+        (0..n).map(|i| if i == pos { odd.clone() } else { vec![0.0; p] }).collect()
+    };
+    vec![
+        mk(cluster(18, 1, vec![ulp64], 17), vec![1e8], false, KM::Gaussian(1.0)),
+        mk(cluster(20, 2, vec![0.0, ulp64], 3), vec![1e8, 1e8], false, KM::Linear),
+        mk(cluster(18, 1, vec![ulp32], 17), vec![2048.0], true, KM::Gaussian(1.0)),
+        mk(cluster(19, 3, vec![0.0, 0.0, ulp32], 0), vec![1000.0, 0.0, 2048.0], true, KM::Polynomial(1.0, 2.0)),
+        // min has an odd mantissa: the midpoint rounds onto max and the bucket splits
+        mk((0..18).map(|i| vec![if i == 17 { 2.0 * ulp64 } else { ulp64 }]).collect(), vec![1e8], false, KM::Gaussian(1.0)),
+        // exact duplicates only: no dimension has a positive spread, the bucket is kept
+        mk(cluster(18, 2, vec![0.0, 0.0], 0), vec![1e8, 2.0], false, KM::Gaussian(1.0)),
+    ]
+}
+
 fn tiny_clusterings() -> Vec<HCase> {
     use gen::Theta;
     let mut v = vec![];
@@ -155,24 +187,26 @@ pub fn property() -> Property {
     Property {
         id: "C06",
         rule: "kernel cases = (record matrix n x p from {lattice, duplicates, clustered, gaussian}, kernel method, neighbour count k in 1..n, \
-               dot right-hand side, construction path); every case builds the dense kernel and the sparse kernel under LinearSearch, KdTree and BallTree. \
+               dot right-hand side, construction path, per-feature offset and spacing of the point cloud, element type f64|f32); every case builds the dense kernel and the sparse kernel under LinearSearch, KdTree and BallTree. \
                clustering cases = (records, kernel method, dense|sparse kernel, linkage in {single, complete, average, weighted, ward}, \
                NumClusters(1..=n+2) | Distance(theta derived from the case: between / equal to pairwise dissimilarities or reference merge heights)). \
                Non-trivial = sparse kernel whose k-nearest-neighbour relation is asymmetric (some i has j among its k nearest but not vice versa), \
                or a threshold run whose expected partition has strictly between 1 and n clusters, \
                or a NumClusters request with 1 < requested < n or requested > n; distinct = distinct canonical JSON of the case",
         assumptions: vec![
-            "f64 only; record rows are contiguous (KdTree documents a panic otherwise); 0 < k < n (documented panic otherwise), so sparse kernels need n >= 2; n = 0 and n = 1 are covered by two small enumerations (dense kernels)".into(),
-            "Gaussian kernel function = exp(-|x-y|^2 / eps) (pinned by linfa's own gaussian_test) with eps in 10^[-2,2]; polynomial: integral degree 0..=4 with constant in [-3,3.6] (quarters, tenths, integers) on any records (negative bases included), or fractional degree (multiples of 1/4 up to 3.75, tenths up to 3.5) with constant >= 0 on records reflected into the non-negative orthant, so that every base <x,y>+c is >= 0 (zero bases included); (negative base)^(fractional degree) is NaN by definition and is kept out of the generator; negative degrees are not generated (0^-d is infinite); clustering sub-checks use integral degrees 1..=3 and constants in [0,3] only; reference power = repeated multiplication / sqrt(sqrt(b))^(4d) / exp(d ln b), tolerance = image of the error interval of the base under the power + 64 eps (1+|d ln b|) |v|; records: p in 1..=4 columns, |coordinates| below about 8".into(),
+            "kernel sub-check: f64 and f32 kernels (records and kernel parameters rounded to f32 first; reference in f64 on the exact f32 values; all tolerances use the machine epsilon of the element type, absolute floor 1e-300 / 1e-44; cases whose reference kernel values exceed 1e34 in f32 are not judged); clustering sub-checks f64 only; record rows are contiguous (KdTree documents a panic otherwise); 0 < k < n (documented panic otherwise), so sparse kernels need n >= 2; n = 0 and n = 1 are covered by two small enumerations (dense kernels)".into(),
+            "Gaussian kernel function = exp(-|x-y|^2 / eps) (pinned by linfa's own gaussian_test) with eps in 10^[-2,2]; polynomial: integral degree 0..=4 with constant in [-3,3.6] (quarters, tenths, integers) on any records (negative bases included), or fractional degree (multiples of 1/4 up to 3.75, tenths up to 3.5) with constant >= 0 on records reflected into the non-negative orthant, so that every base <x,y>+c is >= 0 (zero bases included); (negative base)^(fractional degree) is NaN by definition and is kept out of the generator; negative degrees are not generated (0^-d is infinite); clustering sub-checks use integral degrees 1..=3 and constants in [0,3] only; reference power = repeated multiplication / sqrt(sqrt(b))^(4d) / exp(d ln b), tolerance = image of the error interval of the base under the power + 64 eps (1+|d ln b|) |v|; records: p in 1..=4 columns, point cloud of diameter below about 20 (times 1 or 0.25) placed at a per-feature offset from {0, 1e3, 1e6, 1e8} (f64) or {0, 1000, 2048} (f32)".into(),
+            "the Gaussian reference and the neighbour structure are computed from the differences of the records, so their tolerances scale with the distances and never with the norms of the records (a common offset does not loosen them)".into(),
             "kernel entries vs the independent formula: |a-b| <= 64 eps * scale (+1e-300), scale = sum |x_i y_i| (+|c|) for linear/polynomial (propagated through the power), (1+t) exp(-t) with t = |x-y|^2/eps for Gaussian".into(),
             "symmetry of the dense matrix, equality of sparse stored values with the dense ones, column/diagonal/upper-triangle vs the densified matrix: bit equality (same arithmetic / plain copies)".into(),
             "sum and dot vs the densified matrix: (64 + 2n) eps * sum of absolute terms".into(),
             "Gaussian kernel PSD: smallest Jacobi eigenvalue (trusted: vengine::num::jacobi_eigh) >= -1e-12 n, plus 4 random quadratic forms".into(),
-            "sparse pattern: pairs with squared distance < d_k (1 - 1e-9) of either end point must be stored, pairs with squared distance > d_k (1 + 1e-9) of both must not; inside the band (ties) membership is free; patterns of the three indices must coincide when no pair lies in the band".into(),
+            "sparse pattern: a pair must be stored when one point is among the other's k nearest under every way of breaking ties, and must not be stored when neither is under any; two squared distances count as tied when they agree within max(1e-9, 64 eps) relative plus 2 d * 64 eps * (data diameter); patterns of the three indices must coincide when no pair lies in the band".into(),
             "clustering oracle takes the similarity matrix from the kernel object (its entries are judged by the kernel sub-check) and applies -ln(max(s, 1e-6)) itself".into(),
             "thresholds are finite and >= 0 (anything else is a documented parameter error)".into(),
             "non-single linkages are judged against the reference agglomeration only when no two candidate merges are within 1e-9 (1+|h|) of each other and theta is farther than that from every merge height obtained by arithmetic; other cases are counted as not judged".into(),
             "Ward is only run on kernels with similarities <= 1 (Gaussian): kodama squares the dissimilarities, which has no threshold semantics for negative ones; relies on sqrt(fl(d^2)) == d for the first merge height".into(),
+            "inputs on which the kd-tree build of the kdtree crate provably does not terminate (predicted by replaying its insertion algorithm; validated against real builds) are not handed to the KdTree index: the call is replaced by the failure signature kdtree:build-recursion-unbounded (known finding), LinearSearch and BallTree are still judged".into(),
             "Centroid and Median linkage are excluded (non-monotone, threshold semantics undefined)".into(),
             "cluster ids are not compared, only the partition and the number of distinct ids".into(),
         ],
@@ -198,6 +232,7 @@ pub fn property() -> Property {
             )
             .require(&["requested_more_than_n"]),
             enum_sub("num_clusters_all", |t: Tier| all_num_clusters(t.pick(10, 24)), check_hier),
+            enum_sub("near_duplicate_clusters", |_t: Tier| near_duplicate_clusters(), check_kernel).chunks(1),
             enum_sub("tiny_kernels", |_t: Tier| tiny_kernels(), check_kernel).chunks(1),
             enum_sub("tiny_clusterings", |_t: Tier| tiny_clusterings(), check_hier).chunks(1),
         ],
